@@ -176,7 +176,17 @@ def rule_wire_chain(ctx):
                         bad = True
         res.inst(key, fn.file, fn.line, "violation" if bad else "ok", "%s(%s) -> result" % (trans.split("::")[-1], inp.split("::")[-1]))
     for pf, backend, routine in BACKENDS:
-        f = fx.fn(D + pf)
+        # the driver function that emits code for this backend: the one that instantiates coder::compile at it (print_<backend> on the
+        # pinned tree)
+        pkey = D + pf
+        if pkey not in fx.fns:
+            cands = sorted({k.split("::{closure")[0] for k, g in fx.fns.items() if g["crate"] == "driver" and "{promoted" not in k and
+                            any(b_["term"]["k"] == "call" and b_["term"].get("callee") == "axcut2backend::coder::compile" and
+                                backend in (b_["term"]["func"].get("fn_args") or "") for b_ in g["blocks"])})
+            if len(cands) == 1:
+                pkey = cands[0]
+        f = fx.fn(pkey)
+        pkey = f["key"]
         fx.fn(routine)
         fn = Fn(f)
         flow = Flow(fn, extra_pass=_try_pass)
@@ -195,7 +205,7 @@ def rule_wire_chain(ctx):
                 res.violate(key + "@provenance", "%s compiles a program that does not come from Driver::linearized but from %s" % (pf, sorted(src)), t["sp"]["file"], t["sp"]["line"])
                 ok = False
         rts = [(fn, flow, None, bi, t) for bi, t in _calls_to(fn, routine)]
-        for ck in _closures_of(fx, D + pf):
+        for ck in _closures_of(fx, pkey):
             cfn = Fn(fx.fns[ck])
             cflow = Flow(cfn, extra_pass=_try_pass)
             rts += [(cfn, cflow, ck, bi, t) for bi, t in _calls_to(cfn, routine)]
